@@ -44,7 +44,9 @@ ASSUME = ['where modeling.rst is silent or ambiguous nothing is demanded about a
 BOUNDS = {'quick': 'depth<=2 over the full constant palette (all trees); depth 3 over the reduced palette '
                    '(int 2/-1/0, float, dense 1x1, dense col2/col3, sparse col3, dense row2, sparse row3, dense 3x2, '
                    'sparse 2x3, dense 2x2); in-place trailing op on every accepted depth-2 tree with every operand '
-                   'kind; addterm table complete; points {-1,0,2}^n, n<=6',
+                   'kind; addterm table complete; points {-1,0,2}^n for n<=3 scalar components, for n in 4..6 the grid points '
+                   'with at most two non-zero components; midpoint test on all pairs for <=9 points, else on pairs of '
+                   'the n+3 basis points and the axis lines through them',
           'thorough': 'depth<=3 over the full palette (all trees); in-place trailing op additionally on depth-3 trees '
                       'of the reduced palette with one operand per kind; depth 4 = 14 root ops over every accepted '
                       'reduced-palette depth-3 tree, at most 1500 depth-4 trees per depth-2 family (budget reported in '
@@ -240,7 +242,7 @@ def family_d3(i, seed, pal):
     if pal == 'full':
         partners = LEAVES + K + [t for t, _ in ok]
     else:
-        partners = LEAVES + K + quick_partners(seed)
+        partners = LEAVES + K + _QP(seed)
     return parents(g, ginfo, seed, pal, partners, LEAVES + K)
 
 
@@ -387,10 +389,19 @@ def basis_points(n):
     return _PTS[k]
 
 
+FULLGRID = 6
+
+
 def full_points(n):
-    k = ('f', n)
+    """{-1,0,2}^n when n <= FULLGRID (6 thorough, 3 quick); beyond that the points of the grid that differ from 0
+    in at most two components (plus the basis points)."""
+    k = ('f', n, FULLGRID)
     if k not in _PTS:
-        _PTS[k] = _dedupe(basis_points(n) + list(itertools.product(PAL, repeat=n)))
+        if n <= FULLGRID:
+            _PTS[k] = _dedupe(basis_points(n) + list(itertools.product(PAL, repeat=n)))
+        else:
+            _PTS[k] = _dedupe(basis_points(n) + [p for p in itertools.product(PAL, repeat=n)
+                                                 if builtins_sum(1 for a in p if a) <= 2])
     return _PTS[k]
 
 
@@ -399,7 +410,7 @@ ALLPAIRS = 27
 
 def pair_set(n, pts):
     """pairs for the midpoint test: all pairs when <= ALLPAIRS points (27 thorough, 9 quick); otherwise all pairs of
-    basis points plus, at every basis point, the three pairs along each coordinate axis."""
+    basis points plus, at the origin and the three dense basis points, the three pairs along each coordinate axis."""
     k = ('p', n, len(pts), ALLPAIRS)
     if k not in _PTS:
         if len(pts) <= ALLPAIRS:
@@ -407,7 +418,7 @@ def pair_set(n, pts):
         else:
             B = basis_points(n)
             pr = list(itertools.combinations(B, 2))
-            for b in B:
+            for b in [B[0]] + B[-3:]:
                 for i in range(n):
                     line = [b[:i] + (v,) + b[i + 1:] for v in PAL]
                     pr += list(itertools.combinations(line, 2))
@@ -423,7 +434,13 @@ def pair_set(n, pts):
 
 
 # ====================================================================== the harness
+_REPORTED = {}
+
+
 class Ctx(object):
+    fresh = False           # True: ignore the per-process report limiter (probe case, replays of a single case)
+    badkids = None          # ids of depth-2 trees that fail by themselves
+
     def __init__(self, seed):
         from mc import cvx          # asserts the staged build is the one imported
         import cvxopt.modeling as M
@@ -444,9 +461,14 @@ class Ctx(object):
         self.out[label] = self.out.get(label, 0) + k
 
     def report(self, key, msg, t):
+        """one report per key and case; at most 2 cases per key and worker process (the engine stops a worker after
+        200 violations, and the known defects are hit by thousands of trees)."""
         c = self.keys.get(key, 0)
         self.keys[key] = c + 1
-        if c < 2:
+        self.count('violating-trees')
+        if c == 0 and (self.fresh or _REPORTED.get(key, 0) < 2):
+            if not self.fresh:
+                _REPORTED[key] = _REPORTED.get(key, 0) + 1
             self.viol.append({'key': key, 'msg': '%s  [tree: %s]' % (msg, R.show(t)), 'sub': {'tree': t}})
 
     def result(self):
@@ -584,7 +606,11 @@ class Ctx(object):
         i = R.analyze(t, self.amemo)
         if i.n is None:
             return 'f?'
-        return 'f%s%s' % ('1' if i.n == 1 else 'n', ''.join(sorted(i.cls)) if i.cls else '')
+        z = t
+        while z[0] in ('pos', 'neg'):
+            z = z[1]
+        zero = z[0] in ('mul', 'rmul') and any(c[0] == 'const' and len(c[3]) == 1 and c[3][0] == 0 for c in z[1:3])
+        return 'f%s%s%s' % ('1' if i.n == 1 else 'n', ''.join(sorted(i.cls)) if i.cls else '', '0' if zero else '')
 
     def pattern(self, t):
         op = t[0]
@@ -602,34 +628,62 @@ class Ctx(object):
             ia, ib = R.analyze(t[1], self.amemo), R.analyze(t[2], self.amemo)
             shared = [v for v in sorted(ia.vars & ib.vars) if VARLEN[v] > 1]
             if shared:
-                s += ':shared-vector-var'
-                if ia.n == 1 and ib.n and ib.n > 1 and self.nonuniform(t[1], shared):
-                    s += ':nonuniform-row-left'
-                elif ib.n == 1 and ia.n and ia.n > 1 and self.nonuniform(t[2], shared):
-                    s += ':nonuniform-row-right'
+                # two functions sharing a vector variable: what matters is how each depends on it
+                s = '%s:coef(%s,%s)' % (op, self.coefkind(t[1], shared[0]), self.coefkind(t[2], shared[0]))
         return s
 
-    def nonuniform(self, t, shared):
-        """does the length-1 operand t depend on the components of a shared vector variable with unequal slopes?"""
+    def strip(self, t):
+        """the affine part of a function tree: every max / min / abs term replaced by zero (modeling.rst: a
+        piecewise-linear function is b + A1 x1 + ... + sum of max terms)."""
+        op = t[0]
+        if op in ('var', 'const'):
+            return t
+        if op in ('max1', 'min1') and R.analyze(t[1], self.amemo).n == 1:
+            return self.strip(t[1])
+        if op in ('max', 'min', 'abs', 'max1', 'min1'):
+            n = R.analyze(t, self.amemo).n
+            return ['const', 'dense', [n, 1], [0.0] * n]
+        return [op] + [self.strip(c) if isinstance(c, list) and c and c[0] in R.OPS else c for c in t[1:]]
+
+    def sptag(self, t):
+        return ':sparse-column-operand' if any(isinstance(c, list) and c and c[0] == 'const' and R.ccode(c) == 'scol'
+                                               for c in t[1:]) else ''
+
+    def coefkind(self, t, v):
+        """how the (reference) function t depends on the vector variable v near 0: 'I' a multiple of the identity,
+        'row' a length-1 function with unequal slopes, 'urow' with equal slopes, 'brow'/'ubrow' the same row in
+        every component of a longer function, 'M' a general matrix, '0' no dependence."""
         try:
+            t = self.strip(t)
             names = sorted(R.tree_vars(t))
-            n = builtins_sum(VARLEN[v] for v in names)
+            if v not in names:
+                return '0'
+            n = builtins_sum(VARLEN[w] for w in names)
             zero = tuple([0] * n)
-            f0 = self.refval(t, names, zero)[0]
+            f0 = self.refval(t, names, zero)
             off = 0
-            for v in names:
-                L = VARLEN[v]
-                if v in shared:
-                    sl = []
-                    for i in range(L):
-                        p = list(zero); p[off + i] = 2
-                        sl.append(self.refval(t, names, tuple(p))[0] - f0)
-                    if len(set(sl)) > 1:
-                        return True
-                off += L
+            for w in names:
+                if w == v:
+                    break
+                off += VARLEN[w]
+            L = VARLEN[v]
+            G = []          # G[k] = column k of the slope matrix
+            for k in range(L):
+                p = list(zero); p[off + k] = 2
+                fk = self.refval(t, names, tuple(p))
+                G.append([(a - b) / 2 for a, b in zip(fk, f0)])
+            rows = [tuple(G[k][i] for k in range(L)) for i in range(len(f0))]
+            if not any(any(r) for r in rows):
+                return '0'
+            if len(rows) == 1:
+                return 'urow' if len(set(rows[0])) == 1 else 'row'
+            if len(set(rows)) == 1:
+                return 'ubrow' if len(set(rows[0])) == 1 else 'brow'
+            if len(rows) == L and all(rows[i][k] == (rows[0][0] if i == k else 0) for i in range(L) for k in range(L)):
+                return 'I'
+            return 'M'
         except Exception:
-            pass
-        return False
+            return '?'
 
     # ---------------------------------------------------------------- one tree
     def check(self, t, level=2, localize=True):
@@ -638,6 +692,12 @@ class Ctx(object):
         if self.unsafe(t):
             self.count('skipped:sparse-minus-function-unsafe-in-process')
             return True
+        if level and self.badkids is not None:
+            for c in t[1:]:
+                if isinstance(c, list) and c and id(c) in self.badkids:
+                    # the child already fails on its own (reported in its own family): nothing new to learn
+                    self.count('skipped:child-already-fails')
+                    return True
         info = R.analyze(t, self.amemo)
         if level:
             self.programs += 1
@@ -722,9 +782,9 @@ class Ctx(object):
                     bad = g != wf
                 else:
                     err = abs(g - wf) / max(1.0, abs(wf))
-                    if err > self.maxerr:
-                        self.maxerr = err
                     bad = not err <= TOL
+                    if err > self.maxerr and not bad:
+                        self.maxerr = err
                 if bad:
                     self.fail(t, 'value', 'wrong', 'f.value() = %r, formula gives %r at %s=%r'
                               % (got, [float(a) for a in want], names, p), localize, level)
@@ -755,7 +815,7 @@ class Ctx(object):
         if localize:
             m = self.minimal(t)
         if reason:
-            key = 'C11:%s:%s:%s' % (kind, what, self.pattern(m)) if m is t else None
+            key = 'C11:%s:%s%s' % (kind, what, self.sptag(m)) if m is t else None
         else:
             key = 'C11:%s:%s:%s' % (kind, self.pattern(m), what) if m is t else None
         if key is None:
@@ -763,6 +823,7 @@ class Ctx(object):
             sub = Ctx.__new__(Ctx)
             sub.__dict__.update(self.__dict__)
             sub.viol, sub.keys, sub.out = [], {}, {}
+            sub.fresh = True
             sub.programs = sub.nontrivial = 0
             sub.check(m, level=1, localize=False)
             for v in sub.viol[:1]:
@@ -839,7 +900,11 @@ class Ctx(object):
                 fm = vals.get(m)
                 if fm is None:
                     fm = vals[m] = self.ev(f, names, m)
-                fp, fq = vals[p], vals[q]
+                fp, fq = vals.get(p), vals.get(q)
+                if fp is None:
+                    fp = vals[p] = self.ev(f, names, p)
+                if fq is None:
+                    fq = vals[q] = self.ev(f, names, q)
                 for k in range(len(fm)):
                     mid = (fp[k] + fq[k]) / 2.0
                     if sgn * (fm[k] - mid) > eps * max(1.0, abs(mid)):
@@ -849,8 +914,9 @@ class Ctx(object):
                                                                p, k, fp[k], q, k, fq[k], k, fm[k]), t)
                         return
         except Exception as e:
-            self.report('C11:honesty:evaluation-raised:%s:%s' % (info.reason if info.status != 'ok' else self.pattern(t),
-                                                                   type(e).__name__), 'value() raised %s' % e, t)
+            self.report('C11:honesty:evaluation-raised:%s%s:%s' % (info.reason if info.status != 'ok' else self.pattern(t),
+                                                                     self.sptag(t), type(e).__name__),
+                        'value() raised %s' % e, t)
 
     # ---------------------------------------------------------------- variables() and None
     def variables(self, t, f, info, names, vals):
@@ -901,7 +967,7 @@ class Ctx(object):
                 try:
                     r = f.value()
                 except Exception as e:
-                    self.report('C11:none:%s:raises-%s' % (pat, type(e).__name__),
+                    self.report('C11:none:raises-%s:%s' % (type(e).__name__, slug(e)),
                                 'value() with %s.value = None raised %s' % (v, e), t)
                     continue
                 if r is not None:
@@ -913,16 +979,19 @@ class Ctx(object):
     def steps(self, obj_vars, lg):
         """in-place mutations: (label, function applying it, value transform)."""
         x = self.env['x']
-        st = [('iadd', lambda o: operator.iadd(o, 1), lambda v, pt: [a + 1 for a in v]),
-              ('isub', lambda o: operator.isub(o, x), lambda v, pt: [a - pt['x'][0] for a in v])]
+        one = ['const', 'int', [1, 1], [1]]
+        st = [('iadd', lambda o: operator.iadd(o, 1), lambda v, pt: [a + 1 for a in v], one),
+              ('isub', lambda o: operator.isub(o, x), lambda v, pt: [a - pt['x'][0] for a in v], LEAVES[0])]
         for w in obj_vars:
             if w != 'x' and VARLEN[w] == lg:
                 wv = self.env[w]
                 st.append(('isub', (lambda o, wv=wv: operator.isub(o, wv)),
-                           (lambda v, pt, w=w: [a - b for a, b in zip(v, pt[w])])))
+                           (lambda v, pt, w=w: [a - b for a, b in zip(v, pt[w])]), ['var', w]))
                 break
-        st.append(('imul', lambda o: operator.imul(o, -2), lambda v, pt: [-2 * a for a in v]))
-        st.append(('idiv', lambda o: operator.itruediv(o, 4), lambda v, pt: [a / 4.0 for a in v]))
+        st.append(('imul', lambda o: operator.imul(o, -2), lambda v, pt: [-2 * a for a in v],
+                   ['const', 'int', [1, 1], [-2]]))
+        st.append(('idiv', lambda o: operator.itruediv(o, 4), lambda v, pt: [a / 4.0 for a in v],
+                   ['const', 'int', [1, 1], [4]]))
         return st
 
     def aliasing(self, t, f, objs, info, names):
@@ -952,17 +1021,17 @@ class Ctx(object):
             cur = self.ev(f, allnames, p)
             # A: mutate the result, operands must keep their values
             g = f
-            for lab, do, tr in self.steps(sorted(info.vars), len(f)):
+            for lab, do, tr, arg in self.steps(sorted(info.vars), len(f)):
                 try:
                     g = do(g)
                 except REFUSAL as e:
-                    self.report('C11:accept:%s(%s):%s:%s' % (lab, self.sig(t), type(e).__name__, slug(e)),
+                    self.report('C11:accept:%s:%s:%s' % (self.pattern([lab, t, arg]), type(e).__name__, slug(e)),
                                 'in-place %s on the result raised %s: %s' % (lab, type(e).__name__, e), t)
                     break
                 want = tr(cur, ptd)
                 cur = self.ev(g, allnames, p)
                 if not same(cur, want):
-                    self.report('C11:value:%s(%s):after-inplace' % (lab, self.sig(t)),
+                    self.report('C11:value:%s:after-inplace' % self.pattern([lab, t, arg]),
                                 'after %s on the result value() = %r, expected %r' % (lab, cur, want), t)
                     break
                 for (j, o), b in zip(opnd, before):
@@ -980,7 +1049,7 @@ class Ctx(object):
             for j, _ in opnd:
                 o = objs2[j]
                 oi = R.analyze(kids[j], self.amemo)
-                for lab, do, tr in self.steps(sorted(oi.vars), len(o)):
+                for lab, do, tr, arg in self.steps(sorted(oi.vars), len(o)):
                     try:
                         o = do(o)
                     except REFUSAL:
@@ -1015,7 +1084,7 @@ def _probe_child():
     vs = [M.variable(k, 'v') for k in (1, 2, 3)]
     S = [spmatrix([1.0] * r, range(r), [0] * r, (r, 1)) for r in (1, 2, 3)] + [spmatrix([1.0, 2.0], [0, 1], [0, 1], (2, 2))]
     bad = 0
-    for rep in range(40):
+    for rep in range(12):
         for s in S:
             for v in vs:
                 for o in (v, +v, 2 * v + 1):
@@ -1050,13 +1119,43 @@ def sparse_minus_safe():
     return _SAFE[0]
 
 
+_BAD = {}
+
+
+def failing_depth2(c, seed):
+    """ids of the accepted depth-2 trees (both palettes share the node objects) and quick partners whose basic check
+    (accept, len, value) fails on the implementation; decided once per process."""
+    k = seed % 4
+    if k not in _BAD:
+        bad = {}
+        trees = [t for t, _ in depth2(seed, 'full')[1]] + [t for t, _ in depth2(seed, 'quick')[1]] + _QP(seed)
+        for t in trees:
+            if id(t) not in bad and not c.unsafe(t) and not c.check(t, level=0, localize=False):
+                bad[id(t)] = t
+        _BAD[k] = bad
+    return _BAD[k]
+
+
+_QPC = {}
+
+
+def _QP(seed):
+    k = seed % 4
+    if k not in _QPC:
+        _QPC[k] = quick_partners(seed)
+    return _QPC[k]
+
+
 # ====================================================================== run
 def run(case):
-    global ALLPAIRS
-    ALLPAIRS = 27 if case.get('tier') == 'thorough' else 9
+    global ALLPAIRS, FULLGRID
+    big = case.get('tier') == 'thorough' and case['fam'] != 'd4'
+    ALLPAIRS = 27 if big else 9
+    FULLGRID = 6 if big else 3
     c = Ctx(case['seed'])
     fam, seed = case['fam'], case['seed']
     if fam == 'probe':
+        c.fresh = True
         c.n += 1
         st = _SAFE[1]
         if not c.sub_safe:
@@ -1076,6 +1175,7 @@ def run(case):
         for t in uniq[case['lo']:case['hi']]:
             c.check(t)
     elif fam == 'd3':
+        c.badkids = failing_depth2(c, seed)
         for t in family_d3(case['i'], seed, case['pal']):
             c.check(t)
     elif fam == 'addterm':
@@ -1083,6 +1183,7 @@ def run(case):
             c.check(t)
     elif fam == 'inplace':
         uniq, ok, _ = depth2(seed, case['pal'])
+        c.badkids = failing_depth2(c, seed)
         for g, gi in ok[case['lo']:case['hi']]:
             if g[0] == 'var':
                 continue
@@ -1090,12 +1191,15 @@ def run(case):
                 c.check(t)
     elif fam == 'd4':
         budget = case['budget']
+        c.badkids = failing_depth2(c, seed)
         k = 0
         trunc = 0
         for h in family_d3(case['i'], seed, 'quick'):
             hi = R.analyze(h, c.amemo)
-            if hi.status != 'ok' or c.unsafe(h):
+            if hi.status != 'ok' or c.unsafe(h) or any(isinstance(k_, list) and id(k_) in c.badkids for k_ in h[1:]):
                 continue
+            if not c.check(h, level=0, localize=False):
+                continue            # h already fails by itself (reported in its depth-3 family)
             if k >= budget:
                 trunc = 1
                 break
